@@ -61,8 +61,16 @@ theorem extract_sound (numOf : String → Option Int) (k : String) (c : Cond) (a
     simp only [HasE.cond.injEq] at hk
     obtain ⟨-, rfl, rfl⟩ := hk
     simp only [matchesCond]
-    exact foundIn_strs v xs vals h
-  · simp at h
+    simp only [Option.some.injEq] at h
+    cases hs : strsOf xs with
+    | none => rw [hs] at h; exact absurd h.symm hne
+    | some vs =>
+      rw [hs] at h
+      simp only [Option.getD_some] at h
+      subst h
+      exact foundIn_strs v xs _ hs
+  · simp only [Option.some.injEq] at h
+    exact absurd h.symm hne
   · simp only [Option.some.injEq] at h
     exact absurd h.symm hne
 
